@@ -82,6 +82,7 @@ func runMut(raw Sx) (Sx, Sx) {
 		f()
 	}
 	mwg.Add(2)
+	siblings := 0
 	go func() {
 		defer mwg.Done()
 		for {
@@ -93,6 +94,12 @@ func runMut(raw Sx) (Sx, Sx) {
 			guard(func() {
 				wb.Route(wb.GET("/t").To(say("BT")))
 				wb.RemoveRoute("/b/t", "GET")
+				if siblings < 12 {
+					// a sibling of the stable route: the same method and path, never eligible (its condition fails);
+					// adding it must leave the stable route alone
+					siblings++
+					wb.Route(wb.GET("/keep").If(func(*http.Request) bool { return false }).To(say("X")))
+				}
 			})
 		}
 	}()
